@@ -759,7 +759,9 @@ func (p *pkg) gatewayFacts() {
 				loopUnconditional = true
 				// the body of the loop is exactly: a failing middleware ends the request with (nil, err)
 				t := p.norm(r.Body)
-				if t == "{iferr:=ware(executionContext,result);err!=nil{returnnil,err}}" {
+				// a failing middleware ends the request without data; the error is the middleware's, preceded by the
+				// errors the execution had reported (if any)
+				if t == "{iferr:=ware(executionContext,result);err!=nil{ifexecuteErr!=nil{varexecuteErrsgraphql.ErrorListiferrors.As(executeErr,&executeErrs){returnnil,append(append(graphql.ErrorList{},executeErrs...),err)}returnnil,graphql.ErrorList{executeErr,err}}returnnil,err}}" {
 					errAborts = true
 				}
 			}
